@@ -15,6 +15,7 @@ from .. import facts
 from ..engine import Engine, run_entry, mk_obj
 from ..absint import Val
 from ..port import PortModel
+from ..facts import WORD as W
 from ..terms import C, ZERO, ONE, INF, short, is_const, lin_of, Lin, Dom
 from .. import mem, oracle
 from .automata_common import load_core, Automaton, AUTOMATA_UNIT
@@ -39,6 +40,7 @@ def run(tier):
     rep.rule('R12.b', 'a periodic Hello is sent only while the session table is non-empty and not all complete (never from the Quiescent state)', floor=3)
     rep.rule('R12.c', 'pacing: every send is preceded by the failed suppression test (no transmit yet, or >= 1000 ms since) and followed by recording now as last transmit time', floor=2)
     rep.rule('R12.d', 'empty table: no send in any state; an active enumerator returns to Quiescent with both deadlines cleared', floor=3)
+    rep.rule('R12.f', 'the gate looks at the table as this tick leaves it: a session expired or cleared by the very same tick no longer justifies a Hello', floor=3)
     rep.rule('R12.e', 'only the tick stores the last-transmit time', floor=1)
 
     # ---- (a),(e): who may call the slot / write the time stamp (all parsed units of this configuration + extras)
@@ -111,9 +113,9 @@ def run(tier):
             lt = mk_obj(st, 'in:last_tx', 8, kind='heap', default='sym')
             lt.cells[((), 0)] = (8, LTX)
             mk_obj(st, 'ext:netif', 1, kind='ext', default='unknown')
-            po.cells[((), prec_.field('network_interface')[1])] = (8, ('ptr', 'ext:netif', ZERO))
-            po.cells[((), prec_.field('last_hello_tx_ms')[1])] = (8, ('ptr', 'in:last_tx', ZERO))
-            po.cells[((), prec_.field('send_hello')[1])] = (8, ('fn', 'send_hello'))
+            po.cells[((), prec_.field('network_interface')[1])] = (W, ('ptr', 'ext:netif', ZERO))
+            po.cells[((), prec_.field('last_hello_tx_ms')[1])] = (W, ('ptr', 'in:last_tx', ZERO))
+            po.cells[((), prec_.field('send_hello')[1])] = (W, ('fn', 'send_hello'))
 
             def setup(I, st2):
                 ap = ix.parse_type('automata *')
@@ -148,21 +150,22 @@ def run(tier):
                     rep.check(never or spaced, 'R12.c', 'suppression|%d' % es,
                               'a periodic Hello is sent on a path where neither "nothing transmitted yet" nor "at least %d ms since the last transmit" is established' % MINGAP,
                               function='automata_tick', file=fnf, sample={'last_tx': repr(s2.dom(LTX)), 'spaced': spaced})
-                    after = s2.canon(mem.load_scalar(s2, s2.objs['in:last_tx'], ZERO, ix.parse_type('unsigned long')))
+                    after = s2.canon(mem.load_scalar(s2, s2.objs['in:last_tx'], ZERO, ix.parse_type('unsigned long long')))
                     rep.check(after == NOW, 'R12.c', 'stamp|%d' % es, 'after sending, the last-transmit time is %s, not the current time' % short(after),
                               function='automata_tick', file=fnf)
                 else:
-                    after = s2.canon(mem.load_scalar(s2, s2.objs['in:last_tx'], ZERO, ix.parse_type('unsigned long')))
+                    after = s2.canon(mem.load_scalar(s2, s2.objs['in:last_tx'], ZERO, ix.parse_type('unsigned long long')))
                     rep.check(after == s2.canon(LTX), 'R12.c', 'stamp-without-send|%d' % es, 'the last-transmit time changes (%s) on a path that sends nothing' % short(after),
                               function='automata_tick', file=fnf)
                 if dc.hi == 0:
                     rep.check(not sends, 'R12.d', 'empty-silent|%d' % es, 'a periodic Hello is sent although the session table is empty', function='automata_tick', file=fnf)
                     if es != Eu.initial:
-                        h2 = s2.canon(mem.load_scalar(s2, b2, C(brec.field('hello_timeout_ts')[1]), ix.parse_type('unsigned long')))
-                        k2 = s2.canon(mem.load_scalar(s2, b2, C(brec.field('block_timeout_ts')[1]), ix.parse_type('unsigned long')))
+                        h2 = s2.canon(mem.load_scalar(s2, b2, C(brec.field('hello_timeout_ts')[1]), ix.parse_type('unsigned long long')))
+                        k2 = s2.canon(mem.load_scalar(s2, b2, C(brec.field('block_timeout_ts')[1]), ix.parse_type('unsigned long long')))
                         rep.check(cs.const() == Eu.initial and h2 == ZERO and k2 == ZERO, 'R12.d', 'empty-reset|%d' % es,
                                   'with an empty table the enumerator stays in state %s with deadlines %s / %s (expected Quiescent, 0, 0)' % (cs, short(h2), short(k2)),
                                   function='automata_tick', file=fnf, sample={'empty_table': 'Quiescent, deadlines cleared'})
+    same_tick_scenarios(rep, prog, ix, Eu)
     if nsend == 0:
         rep.fail('R12.b', 'never-sends', 'no path of the tick sends a periodic Hello (send compiled out?)', function='automata_tick', file=fnf)
     rep.analysed.update({'enumeration_states': Eu.states_no, 'sending_paths': nsend, 'enumeration_rows': Eu.rows})
@@ -174,3 +177,88 @@ def run(tier):
                   'who-may-call / who-may-write over resolved ASTs + abstract interpretation of automata_tick per RepeatBand state', exhaustive=False,
                   assumptions=['monotonic clock is non-decreasing and > 0 (a send at time 0 would defeat the "last_tx > 0" test)',
                                'the last-transmit variable is written only through the tick port (Darwin wiring not parseable here)'])
+
+
+def same_tick_scenarios(rep, prog, ix, Eu):
+    """One valid, incomplete session at a fixed slot; RepeatBand Pausing with a Hello due and nothing transmitted yet.
+    (fresh)   the session is alive            -> the Hello is sent (the scenario is not vacuous)
+    (expired) its 60 s stamp has run out      -> this tick's sweep removes it: no Hello, enumerator back to Quiescent
+    (cleared) the 30 s mapping deadline fired -> this tick clears the table: no Hello"""
+    from ..facts import WORD as W
+    fnf = 'lltdResponder/lltdAutomata.c'
+    trec = ix.parse_type('session_table').rec
+    erec = ix.parse_type('session_entry').rec
+    prec_ = ix.parse_type('lltd_automata_tick_port').rec
+    brec = ix.parse_type('band_state').rec
+    mrec = ix.parse_type('mapping_state').rec
+    M = Automaton(prog, 'init_automata_mapping', 'switch_state_mapping')
+    LA = ('sym', 'entry.last_activity', 1, 1 << 61)
+    CLK = ('sym', 'clock.s.0', 1, 1 << 63)
+    for scen in ('fresh', 'expired', 'cleared'):
+        for j in (0, 15):
+            st = Eu.state0.fork()
+            for oid, o in M.state0.objs.items():
+                if oid not in st.objs:
+                    st.objs[oid] = o.copy()
+            st.trace, st.tags = (), {}
+            e = st.objs[Eu.oid]
+            e.cells[((), Eu.field_off('current_state'))] = (1, C(1))
+            bext = st.canon(mem.load_scalar(st, e, C(Eu.field_off('extra')), ix.parse_type('void *')))
+            band = st.objs[bext[1]]
+            band.cells.clear()
+            band.default = 'sym'
+            band.cells[((), brec.field('hello_timeout_ts')[1])] = (8, C(1))        # due: 0 < deadline <= now
+            band.cells[((), brec.field('block_timeout_ts')[1])] = (8, ZERO)
+            band.cells[((), brec.field('Ni')[1])] = (4, C(oracle.BAND['ALPHA']))
+            t = mk_obj(st, 'in:sessions', trec.size, kind='heap', default='zero', heap=True)
+            t.zeroed_n = t.size
+            t.cells[((), trec.field('count')[1])] = (1, C(1))
+            t.cells[((), trec.field('all_complete')[1])] = (1, ZERO)
+            b = trec.field('entries')[1] + j * erec.size
+            t.cells[((), b + erec.field('valid')[1])] = (1, C(1))
+            t.cells[((), b + erec.field('complete')[1])] = (1, ZERO)
+            t.cells[((), b + erec.field('last_activity_ts')[1])] = (8, LA)
+            lim = lin_of(('add', LA, C(oracle.SESSION_EXPIRY_S)))
+            if scen == 'expired':
+                f = lim.add(lin_of(CLK), -1)
+                f.k += 1
+            else:
+                f = lin_of(CLK).add(lim, -1)
+            st.add_fact(f)
+            po = mk_obj(st, 'in:tickport', prec_.size, kind='heap', default='sym')
+            lt = mk_obj(st, 'in:last_tx', 8, kind='heap', default='sym')
+            lt.cells[((), 0)] = (8, ZERO)
+            mk_obj(st, 'ext:netif', 1, kind='ext', default='unknown')
+            po.cells[((), prec_.field('network_interface')[1])] = (W, ('ptr', 'ext:netif', ZERO))
+            po.cells[((), prec_.field('last_hello_tx_ms')[1])] = (W, ('ptr', 'in:last_tx', ZERO))
+            po.cells[((), prec_.field('send_hello')[1])] = (W, ('fn', 'send_hello'))
+            # mapping automaton: Command state; inactivity deadline fired only in the 'cleared' scenario
+            a = st.objs[M.oid]
+            a.cells[((), M.field_off('current_state'))] = (1, C(1))
+            a.cells[((), M.field_off('last_ts'))] = (8, CLK)
+            mext = st.canon(mem.load_scalar(st, a, C(M.field_off('extra')), ix.parse_type('void *')))
+            ms = st.objs[mext[1]]
+            ms.cells.clear()
+            ms.default = 'zero'
+            ms.zeroed_n = ms.size
+            ms.cells[((), mrec.field('inactive_timeout_ts')[1])] = (8, C(1) if scen == 'cleared' else ZERO)
+
+            def setup(I, st2):
+                ap = ix.parse_type('automata *')
+                return [Val(ap, M.ret.t), Val(ap, Eu.ret.t), Val(ix.parse_type('session_table *'), ('ptr', 'in:sessions', ZERO)),
+                        Val(ix.parse_type('const lltd_automata_tick_port *'), ('ptr', 'in:tickport', ZERO))]
+            I, outs = run_entry(prog, AUTOMATA_UNIT, 'automata_tick', setup, port=PortModel(), state=st, name='automata_tick[%s slot %d]' % (scen, j))
+            for ob in I.obs.values():
+                if not ob.ok:
+                    rep.fail('R12.ub', '%s|%s' % (ob.fn, ob.kind), ob.msg, node=ob.node, function=ob.fn)
+            for s2, v in outs:
+                sent = [x for x in s2.trace if x[0] == 'indirect' and x[1] == 'send_hello']
+                cnt = s2.canon(mem.load_scalar(s2, s2.objs['in:sessions'], C(trec.field('count')[1]), ix.parse_type('unsigned char')))
+                if scen == 'fresh':
+                    rep.check(len(sent) == 1, 'R12.f', 'fresh|sends', 'with a live incomplete session and a Hello due, the tick sends %d Hellos' % len(sent), function='automata_tick', file=fnf,
+                              sample={'scenario': scen, 'slot': j, 'sent': len(sent)})
+                else:
+                    why = 'idle for more than 60 s and removed by this tick\'s sweep' if scen == 'expired' else 'dropped by this tick\'s 30 s mapping-inactivity handling'
+                    rep.check(not sent and cnt == ZERO, 'R12.f', '%s|silent' % scen,
+                              'the only session is %s (count afterwards %s), yet the same tick still sends %d periodic Hello(s): the gate used the table status from before that step'
+                              % (why, short(cnt), len(sent)), function='automata_tick', file=fnf, sample={'scenario': scen, 'slot': j, 'sent': len(sent)})
